@@ -9,6 +9,7 @@ import (
 	"maps"
 	"math/rand/v2"
 	"os"
+	"reflect"
 	"regexp"
 	"slices"
 	"sort"
@@ -21,8 +22,12 @@ import (
 
 	"github.com/cosi-project/runtime/pkg/controller/runtime"
 	"github.com/cosi-project/runtime/pkg/controller/runtime/options"
+	"go.yaml.in/yaml/v4"
+
 	"github.com/cosi-project/runtime/pkg/resource"
 	"github.com/cosi-project/runtime/pkg/resource/kvutils"
+	"github.com/cosi-project/runtime/pkg/resource/meta"
+	metaspec "github.com/cosi-project/runtime/pkg/resource/meta/spec"
 	"github.com/cosi-project/runtime/pkg/state"
 	"github.com/cosi-project/runtime/pkg/state/impl/inmem"
 	"github.com/cosi-project/runtime/pkg/state/impl/namespaced"
@@ -188,7 +193,141 @@ func TestC19(t *testing.T) {
 		wg.Wait()
 
 		concurrentCopies(c)
+		builtinKinds(c)
 	})
+}
+
+// builtinKinds: the resource kinds the repository itself defines (meta.ResourceDefinition, meta.Namespace) have hand-written spec
+// copies; a generic (reflection) scribbler overwrites every string, slice element and map entry of a copy's spec in place, and the
+// original / the stored value / the other readers' objects must not move. Rendered through YAML for comparison.
+func builtinKinds(c *vk.C) {
+	rng := c.Rand(19_019)
+
+	mk := func(i int) []resource.Resource {
+		rd, err := meta.NewResourceDefinition(metaspec.ResourceDefinitionSpec{
+			Type: fmt.Sprintf("%sThings.c19.verif.cosi.dev", []string{"Red", "Blue", "Green"}[i%3]), DisplayType: "Kind", DefaultNamespace: "ns",
+			Aliases:      []string{"al1", "al2", "al3"}[:1+rng.IntN(3)],
+			PrintColumns: []metaspec.PrintColumn{{Name: "col", JSONPath: "{.x}"}, {Name: "col2", JSONPath: "{.y}"}}[:rng.IntN(3)],
+			Sensitivity:  metaspec.NonSensitive,
+		})
+		if err != nil {
+			c.Violation("builtin-kind-setup-failed", err.Error())
+
+			return nil
+		}
+
+		return []resource.Resource{rd, meta.NewNamespace(fmt.Sprintf("ns%d", i), meta.NamespaceSpec{Description: "a namespace"})}
+	}
+
+	render := func(r resource.Resource) string {
+		out, err := resource.MarshalYAML(r)
+		if err != nil {
+			return "marshal error: " + err.Error()
+		}
+
+		b, err := yaml.Marshal(out)
+		if err != nil {
+			return "yaml error: " + err.Error()
+		}
+
+		return string(b)
+	}
+
+	for i := 0; i < c.N(40, 2000); i++ {
+		for _, orig := range mk(i) {
+			before := render(orig)
+			what := orig.Metadata().Type()
+
+			// 1. DeepCopy
+			cp := orig.DeepCopy()
+			scribbleSpec(cp.Spec())
+			c.Count("builtin_kind_copies_scribbled", 1)
+
+			if now := render(orig); now != before {
+				c.Violation("builtin-resource-deepcopy-shares-spec", map[string]any{"type": what, "before": before, "after_scribbling_on_the_copy": now})
+
+				return
+			}
+
+			// 2. through the store: the object passed to Create, the objects returned by Get / List
+			st := inmem.NewState(orig.Metadata().Namespace())
+			ctx := context.Background()
+			in := orig.DeepCopy()
+
+			if err := st.Create(ctx, in); err != nil {
+				c.Violation("builtin-kind-setup-failed", err.Error())
+
+				return
+			}
+
+			stored, _ := st.Get(ctx, orig.Metadata())
+			storedBefore := render(stored)
+
+			scribbleSpec(in.Spec())
+
+			got, _ := st.Get(ctx, orig.Metadata())
+			scribbleSpec(got.Spec())
+
+			if l, err := st.List(ctx, resource.NewMetadata(orig.Metadata().Namespace(), orig.Metadata().Type(), "", resource.VersionUndefined)); err == nil {
+				for _, it := range l.Items {
+					scribbleSpec(it.Spec())
+				}
+			}
+
+			again, _ := st.Get(ctx, orig.Metadata())
+			if now := render(again); now != storedBefore {
+				c.Violation("store-changed-by-caller-mutation", map[string]any{"type": what, "path": "inmem (built-in kind)", "before": storedBefore, "after": now})
+
+				return
+			}
+
+			c.Count("store_comparisons", 1)
+		}
+	}
+}
+
+// scribbleSpec overwrites, in place, everything reachable from a spec value: strings, slice elements, map entries, numbers.
+func scribbleSpec(spec any) {
+	var walk func(v reflect.Value, depth int)
+
+	walk = func(v reflect.Value, depth int) {
+		if depth > 6 || !v.IsValid() {
+			return
+		}
+
+		switch v.Kind() {
+		case reflect.Pointer, reflect.Interface:
+			if !v.IsNil() {
+				walk(v.Elem(), depth+1)
+			}
+		case reflect.Struct:
+			for i := 0; i < v.NumField(); i++ {
+				if f := v.Field(i); f.CanSet() || f.Kind() == reflect.Slice || f.Kind() == reflect.Map || f.Kind() == reflect.Pointer {
+					walk(f, depth+1)
+				}
+			}
+		case reflect.Slice:
+			for i := 0; i < v.Len(); i++ {
+				walk(v.Index(i), depth+1) // (elements of a slice are addressable even when the slice header is not)
+			}
+		case reflect.Map:
+			if v.Type().Key().Kind() == reflect.String && v.Type().Elem().Kind() == reflect.String {
+				for _, k := range v.MapKeys() {
+					v.SetMapIndex(k, reflect.ValueOf("scribbled").Convert(v.Type().Elem()))
+				}
+			}
+		case reflect.String:
+			if v.CanSet() {
+				v.SetString("scribbled")
+			}
+		case reflect.Int, reflect.Int32, reflect.Int64:
+			if v.CanSet() {
+				v.SetInt(v.Int() + 1)
+			}
+		}
+	}
+
+	walk(reflect.ValueOf(spec), 0)
 }
 
 func sequence(c *vk.C, rng *rand.Rand, k int) {
